@@ -30,14 +30,24 @@ PlanOf(line) ==
   [failDescribe |-> k.failDescribe, failCreate |-> k.failCreate, noCapacity |-> k.noCapacity, failSet |-> k.failSet,
    failAttach |-> k.failAttach, failTerm |-> ToSet(k.failTerm)]
 
+\* "delinc": the recorded set_desired after the delete must be (desired - accepted terminations) + d, exactly once, if admissible
+DelIncViol(line, cs0) ==
+  LET tm == SelectSeq(line.calls, LAMBDA x : x.op = "terminate" /\ x.ok)
+      sd == SelectSeq(line.calls, LAMBDA x : x.op = "set_desired")
+      cur == cs0.desired - Len(tm)
+  IN IF cur + cs0.d > cs0.max THEN (IF Len(sd) # 0 THEN {<<"C17", "rejected-request-wrote-or-succeeded">>} ELSE {})
+     ELSE (IF ~(Len(sd) = 1 /\ sd[1].a = cur + cs0.d) THEN {<<"C17", "set-desired-not-current-plus-delta-after-removals">>} ELSE {})
+          \cup (IF Len(sd) >= 1 /\ sd[1].a < cur THEN {<<"C17", "desired-lowered">>} ELSE {})
+
 CheckLine(i) ==
   LET line == Trace[i]
       cs0 == CaseOf(line)
       isInc == line.case.kind = "inc"
+      isDelInc == line.case.kind = "delinc"
       exp == IF isInc THEN IncResult(cs0, PlanOf(line)) ELSE DelResult(cs0, ToSet(line.case.failNodes))
       obs == IF isInc THEN Obs(line) ELSE ObsDel(line)
       postDesired == line.post.desired
-      mm == (IF exp.calls # obs THEN {"calls"} ELSE {}) \cup (IF exp.ret # line.ret THEN {"ret"} ELSE {})
+      mm == (IF exp.calls # obs THEN {"calls"} ELSE {}) \cup (IF ~isDelInc /\ exp.ret # line.ret THEN {"ret"} ELSE {})
             \cup (IF line.panic THEN {"panic"} ELSE {})
             \cup (IF isInc /\ exp.exit # line.exit THEN {"exit"} ELSE {})
             \cup (IF isInc /\ ~line.exit /\ exp.tries # line.tries THEN {"tries"} ELSE {})
@@ -45,7 +55,8 @@ CheckLine(i) ==
       viol == IF isInc THEN {<<"C17", x>> : x \in C17bad(cs0, obs, line.ret, postDesired)} \cup {<<"C18", x>> : x \in C18bad(cs0, obs, line.ret)}
                             \cup (IF line.exit /\ ~(cs0.fleet /\ cs0.tries0 >= MaxTries - 1) THEN {<<"C20", "undocumented-exit">>} ELSE {})
                             \cup (IF line.panic THEN {<<"C20", "panic">>} ELSE {})
-              ELSE {<<"C19", x>> : x \in C19bad(cs0, obs, line.ret)}
+              ELSE {<<"C19", x>> : x \in C19bad(cs0, obs, IF isDelInc THEN line.case.delRet ELSE line.ret)}
+                   \cup (IF isDelInc THEN DelIncViol(line, cs0) ELSE {})
       facts == IF isInc THEN
                  (IF cs0.fleet THEN {"fleet"} ELSE {"set-desired"})
                  \cup (IF cs0.d <= 0 \/ cs0.desired + cs0.d > cs0.max THEN {"rejected"} ELSE {})
@@ -57,7 +68,8 @@ CheckLine(i) ==
                  \cup (IF Len(SelectSeq(obs, LAMBDA x : x.op = "attach")) > 1 THEN {"fleet-attach-several-batches"} ELSE {})
                  \cup (IF line.exit THEN {"fleet-exit-after-3"} ELSE {})
                ELSE
-                 (IF exp.ret = "notingroup" THEN {"del-not-in-group"} ELSE {})
+                 (IF isDelInc THEN {"del-then-increase"} ELSE {})
+                 \cup (IF exp.ret = "notingroup" THEN {"del-not-in-group"} ELSE {})
                  \cup (IF exp.ret = "nil" /\ Len(obs) > 0 THEN {"del-all-terminated"} ELSE {})
                  \cup (IF exp.ret = "error" /\ Len(obs) = 0 THEN {"del-refused-whole"} ELSE {})
                  \cup (IF \E j \in 1..Len(obs) : ~obs[j].ok THEN {"del-terminate-failed"} ELSE {})
